@@ -17,6 +17,7 @@
 package loader
 
 import (
+	"errors"
 	"fmt"
 	"path"
 	"strconv"
@@ -30,9 +31,15 @@ func Normalize(dict map[string]any, env types.Mapping) (map[string]any, error) {
 	normalizeNetworks(dict)
 
 	if d, ok := dict["services"]; ok {
-		services := d.(map[string]any)
+		services, ok := d.(map[string]any)
+		if !ok {
+			return nil, errors.New("services must be a mapping")
+		}
 		for name, s := range services {
-			service := s.(map[string]any)
+			service, ok := s.(map[string]any)
+			if !ok {
+				return nil, fmt.Errorf("services.%s must be a mapping", name)
+			}
 
 			if service["pull_policy"] == types.PullPolicyIfNotPresent {
 				service["pull_policy"] = types.PullPolicyMissing
@@ -44,7 +51,10 @@ func Normalize(dict map[string]any, env types.Mapping) (map[string]any, error) {
 			}
 
 			if b, ok := service["build"]; ok {
-				build := b.(map[string]any)
+				build, ok := b.(map[string]any)
+				if !ok {
+					return nil, fmt.Errorf("services.%s.build must be a mapping", name)
+				}
 				if build["context"] == nil {
 					build["context"] = "."
 				}
@@ -65,14 +75,23 @@ func Normalize(dict map[string]any, env types.Mapping) (map[string]any, error) {
 
 			var dependsOn map[string]any
 			if d, ok := service["depends_on"]; ok {
-				dependsOn = d.(map[string]any)
+				dependsOn, ok = d.(map[string]any)
+				if !ok {
+					return nil, fmt.Errorf("services.%s.depends_on must be a mapping", name)
+				}
 			} else {
 				dependsOn = map[string]any{}
 			}
 			if l, ok := service["links"]; ok {
-				links := l.([]any)
+				links, ok := l.([]any)
+				if !ok {
+					return nil, fmt.Errorf("services.%s.links must be a list", name)
+				}
 				for _, e := range links {
-					link := e.(string)
+					link, ok := e.(string)
+					if !ok {
+						return nil, fmt.Errorf("services.%s.links must be a list of strings", name)
+					}
 					parts := strings.Split(link, ":")
 					if len(parts) == 2 {
 						link = parts[0]
@@ -104,20 +123,33 @@ func Normalize(dict map[string]any, env types.Mapping) (map[string]any, error) {
 			}
 
 			if v, ok := service["volumes"]; ok {
-				volumes := v.([]any)
+				volumes, ok := v.([]any)
+				if !ok {
+					return nil, fmt.Errorf("services.%s.volumes must be a list", name)
+				}
 				for i, volume := range volumes {
-					vol := volume.(map[string]any)
-					target := vol["target"].(string)
-					vol["target"] = path.Clean(target)
+					vol, ok := volume.(map[string]any)
+					if !ok {
+						return nil, fmt.Errorf("services.%s.volumes[%d] must be a mapping", name, i)
+					}
+					if target, ok := vol["target"].(string); ok {
+						vol["target"] = path.Clean(target)
+					}
 					volumes[i] = vol
 				}
 				service["volumes"] = volumes
 			}
 
 			if n, ok := service["volumes_from"]; ok {
-				volumesFrom := n.([]any)
+				volumesFrom, ok := n.([]any)
+				if !ok {
+					return nil, fmt.Errorf("services.%s.volumes_from must be a list", name)
+				}
 				for _, v := range volumesFrom {
-					vol := v.(string)
+					vol, ok := v.(string)
+					if !ok {
+						return nil, fmt.Errorf("services.%s.volumes_from must be a list of strings", name)
+					}
 					if !strings.HasPrefix(vol, types.ContainerPrefix) {
 						spec := strings.Split(vol, ":")
 						if _, ok := dependsOn[spec[0]]; !ok {
@@ -145,8 +177,8 @@ func Normalize(dict map[string]any, env types.Mapping) (map[string]any, error) {
 
 func normalizeNetworks(dict map[string]any) {
 	var networks map[string]any
-	if n, ok := dict["networks"]; ok {
-		networks = n.(map[string]any)
+	if n, ok := dict["networks"].(map[string]any); ok {
+		networks = n
 	} else {
 		networks = map[string]any{}
 	}
@@ -154,10 +186,12 @@ func normalizeNetworks(dict map[string]any) {
 	// implicit `default` network must be introduced only if actually used by some service
 	usesDefaultNetwork := false
 
-	if s, ok := dict["services"]; ok {
-		services := s.(map[string]any)
+	if services, ok := dict["services"].(map[string]any); ok {
 		for name, se := range services {
-			service := se.(map[string]any)
+			service, ok := se.(map[string]any)
+			if !ok {
+				continue
+			}
 			if _, ok := service["network_mode"]; ok {
 				continue
 			}
@@ -166,7 +200,7 @@ func normalizeNetworks(dict map[string]any) {
 				service["networks"] = map[string]any{"default": nil}
 				usesDefaultNetwork = true
 			} else {
-				net := n.(map[string]any)
+				net, _ := n.(map[string]any)
 				if len(net) == 0 {
 					// networks section declared but empty (corner case)
 					service["networks"] = map[string]any{"default": nil}
@@ -237,11 +271,17 @@ func setNameFromKey(dict map[string]any) {
 		if !ok {
 			continue
 		}
-		toplevel := a.(map[string]any)
+		toplevel, ok := a.(map[string]any)
+		if !ok {
+			continue
+		}
 		for key, r := range toplevel {
 			var resource map[string]any
 			if r != nil {
-				resource = r.(map[string]any)
+				resource, ok = r.(map[string]any)
+				if !ok {
+					continue
+				}
 			} else {
 				resource = map[string]any{}
 			}
